@@ -344,3 +344,33 @@ Fixpoint trace (s : rstate bctx) (cs : list (list Z)) : list (list Z) * list (li
   | c :: r => let '(s1, e1) := bfeed s c in
               let '(es, snaps) := trace s1 r in (map event_code e1 ++ es, snapshot s1 :: snaps)
   end.
+
+(* ---- token-level view: what one complete token does to the context ---- *)
+Definition tok_apply (c : bctx) (ty hdr : Z) (body : list Z) : hr :=
+  if has_body ty then
+    match begin_body c ty hdr with
+    | BAccept => deliver c (body_val ty body)
+    | BReject c' es => Ok' c' es
+    | BFatal es => Fatal' es
+    end
+  else step_nobody_hr c ty hdr.
+
+(* nesting depth the receiver believes it is at: discarded levels + live unslicers above the
+   root + an OPEN whose index phase is still running *)
+Definition open_depth (c : bctx) : Z :=
+  discard c + (Z.of_nat (List.length (stack c)) - 1) + (if inOpen c then 1 else 0).
+
+(* how a token changes the nesting depth of the stream *)
+Definition tok_delta (ty : Z) : Z := if ty =? tok_OPEN then 1 else if ty =? tok_CLOSE then -1 else 0.
+
+Definition at_top (c : bctx) : Prop := discard c = 0 /\ inOpen c = false /\ stack c = [root_frame].
+
+Fixpoint apply_all (c : bctx) (ts : list (Z * Z * list Z)) : hr :=
+  match ts with
+  | [] => Ok' c []
+  | (ty, hdr, body) :: r =>
+    match tok_apply c ty hdr body with
+    | Fatal' es => Fatal' es
+    | Ok' c' es => match apply_all c' r with Ok' c'' es' => Ok' c'' (es ++ es') | Fatal' es' => Fatal' (es ++ es') end
+    end
+  end.
